@@ -5,7 +5,7 @@ VERIF = os.path.abspath(os.path.join(os.path.dirname(__file__), '..', '..'))
 REPO = os.environ.get('VERIF_REPO', '/repo')   # (development aid; registered commands never set it)
 SPEC = os.path.join(VERIF, 'spec')
 HARNESS = os.path.join(VERIF, 'harness')
-EVID = os.path.join(VERIF, 'evidence')
+EVID = os.environ.get('VERIF_EVIDENCE_DIR') or os.path.join(VERIF, 'evidence')   # (override: development aid for mutant runs)
 REPLAYS = os.path.join(EVID, 'replays')
 NCPU = os.cpu_count() or 4
 
